@@ -245,7 +245,11 @@ impl<'a> BlockFiltersProcess<'a> {
                     );
                 }
             }
-        } else if matched_blocks.is_empty() {
+        } else if matched_blocks.is_empty()
+            && self.filter.storage.get_earliest_matched_blocks().is_none()
+        {
+            // Do NOT update the block number of filter scripts if there are any pending matched
+            // blocks in the storage, they may haven't been recovered into the memory yet.
             self.filter
                 .storage
                 .update_block_number(filtered_block_number)
